@@ -54,12 +54,7 @@ IsPow2A(s) == \/ (s[1] = 0 /\ s[2] \in {2^k : k \in 0..15})
 (* values = byte sequences, least significant byte first *)
 Max(a, b) == IF a > b THEN a ELSE b
 Pad(b, n) == [j \in 1..n |-> IF j <= Len(b) THEN b[j] ELSE 0]
-Shl(b, k, n) == [j \in 1..n |-> IF j > k /\ j - k <= Len(b) THEN b[j - k] ELSE 0]
-Shr(b, k, n) == [j \in 1..n |-> IF j + k <= Len(b) THEN b[j + k] ELSE 0]
 Bit(x, k) == (x \div (2^k)) % 2
-OrByte(x, y) == LET o(k) == IF Bit(x, k) = 1 \/ Bit(y, k) = 1 THEN 2^k ELSE 0
-                IN o(0) + o(1) + o(2) + o(3) + o(4) + o(5) + o(6) + o(7)
-OrB(a, b, n) == [j \in 1..n |-> OrByte(Pad(a, n)[j], Pad(b, n)[j])]
 EqV(a, b) == LET n == Max(Len(a), Len(b)) IN Pad(a, n) = Pad(b, n)
 IsBytes(b) == \A j \in 1..Len(b) : b[j] \in 0..255
 Below(b, size) ==      \* the value is < 2^size
@@ -73,14 +68,24 @@ ToSet(s) == {s[j] : j \in 1..Len(s)}
 ---------------------------------------------------------------------------
 (* accessors *)
 NLoads(ops) == Cardinality({j \in 1..Len(ops) : ops[j][1] \in {"ld", "or"}})
+(* bit sequences (index 1 = lsb) for the accessors' arithmetic: shifts by any number of bits *)
+Bits(b, n) == [k \in 1..n |-> BitAt(b, k - 1)]
+ShlBits(x, sh, n) == [k \in 1..n |-> IF k > sh /\ k - sh <= Len(x) THEN x[k - sh] ELSE 0]
+ShrBits(x, sh, n) == [k \in 1..n |-> IF k + sh <= Len(x) THEN x[k + sh] ELSE 0]
+OrBits(x, y, n) == [k \in 1..n |-> IF (k <= Len(x) /\ x[k] = 1) \/ (k <= Len(y) /\ y[k] = 1) THEN 1 ELSE 0]
+EqBits(x, y) == LET n == Max(Len(x), Len(y)) IN
+                \A k \in 1..n : (IF k <= Len(x) THEN x[k] ELSE 0) = (IF k <= Len(y) THEN y[k] ELSE 0)
+(* a read accessor run on the recorded bus data: accumulator of W bytes, every load is a uint32_t *)
 RECURSIVE RunRead(_, _, _, _, _, _)
 RunRead(ops, rops, W, j, k, r) ==
   IF j > Len(ops) THEN r
   ELSE LET op == ops[j] IN
-       CASE op[1] = "ld"  -> RunRead(ops, rops, W, j + 1, k + 1, Pad(rops[k][2], W))
-         [] op[1] = "shl" -> RunRead(ops, rops, W, j + 1, k, Shl(r, op[2][1] \div 8, W))
-         [] op[1] = "or"  -> RunRead(ops, rops, W, j + 1, k + 1, OrB(r, Pad(rops[k][2], W), W))
+       CASE op[1] = "ld"  -> RunRead(ops, rops, W, j + 1, k + 1, Bits(Pad(rops[k][2], 4), 8 * W))
+         [] op[1] = "shl" -> RunRead(ops, rops, W, j + 1, k, ShlBits(r, op[2][1], 8 * W))
+         [] op[1] = "or"  -> RunRead(ops, rops, W, j + 1, k + 1, OrBits(r, Bits(Pad(rops[k][2], 4), 8 * W), 8 * W))
          [] OTHER         -> r
+ReadValue(r) == RunRead(r.racc, r.rops, IF r.W = 0 THEN 4 * Max(1, r.nw.h) ELSE r.W, 1, 1, <<>>)
+ValBits(b) == Bits(b, 8 * Len(b))
 RECURSIVE ShiftAfter(_, _)
 ShiftAfter(ops, j) == IF j >= Len(ops) THEN 0
                       ELSE (IF ops[j + 1][1] = "shl" THEN ops[j + 1][2][1] ELSE 0) + ShiftAfter(ops, j + 1)
@@ -123,22 +128,24 @@ RegEnv(r) ==
   /\ r.hw \in {0, 1} /\ r.wdone \in {0, 1} /\ r.rdone \in {0, 1, 2}
   /\ (r.wdone = 1 =>
         /\ r.hw = 1 /\ r.kind = "sto" /\ r.wid >= 1
-        /\ IsBytes(r.v) /\ Len(r.v) = AccW(r) /\ Below(r.v, r.size) /\ ~EqV(r.v, r.before)
+        /\ IsBytes(r.want) /\ Below(r.want, r.size) /\ ~EqV(r.want, r.before)      \* the value to be written
+        /\ r.v = Pad(r.want, AccW(r))                     \* ... as the accessor's parameter of its C type holds it
         /\ (r.W = 0 => r.wacc = GenericW(r.a.h, r.nw.h, r.bw))
         /\ Len(r.wops) = Len(r.wacc)
         /\ \A j \in 1..Len(r.wacc) :
-             /\ r.wacc[j][1] % 8 = 0
+             /\ r.wacc[j][1] >= 0
              /\ r.wops[j][1] = r.wacc[j][2]                                  \* address the accessor names
-             /\ r.wops[j][2] = Shr(r.v, r.wacc[j][1] \div 8, 4))             \* (uint32_t)(v >> shift)
+             /\ Len(r.wops[j][2]) = 4                                        \* (uint32_t)(v >> shift)
+             /\ ValBits(r.wops[j][2]) = ShrBits(ValBits(r.v), r.wacc[j][1], 32))
   /\ (r.rdone # 0 =>
         /\ r.hw = 1
         /\ (r.W = 0 => r.racc = GenericR(r.a.h, r.nw.h, r.bw))
         /\ Len(r.rops) = NLoads(r.racc)
         /\ LET lds == SelectSeq(r.racc, LAMBDA op : op[1] \in {"ld", "or"})
            IN \A j \in 1..Len(lds) : r.rops[j][1] = lds[j][2]
-        /\ \A j \in 1..Len(r.racc) : r.racc[j][1] = "shl" => r.racc[j][2][1] % 8 = 0)
-  (* nothing published was skipped - unless the bus master got no answer earlier on (that access is    *)
-  (* recorded with resp = 2 and judged) and the SoC's bus cannot be used any more                      *)
+        /\ \A j \in 1..Len(r.racc) : r.racc[j][1] = "shl" => r.racc[j][2][1] >= 0)
+  (* nothing published was skipped - unless the harness gave the SoC's bus up after accesses at         *)
+  (* published addresses that were not answered properly (those are recorded and judged)               *)
   /\ r.skip \in {0, 1} /\ (r.skip = 1 => S.dead = 1)
   /\ (r.hw = 1 /\ Pub(r.a.h) /\ r.kind = "sto" => r.wdone = 1 \/ r.skip = 1)
   /\ (r.hw = 1 /\ Pub(r.a.h) => r.rdone # 0 \/ r.skip = 1)
@@ -151,16 +158,16 @@ RegAtAddress(r) ==
     /\ (r.wdone = 1 =>
           /\ AllOk(r.wops)
           /\ ToSet(r.changed) = {r.wid}
-          /\ (NW(r) = 1 => EqV(r.after, r.v)))
+          /\ (NW(r) = 1 => EqV(r.after, r.want)))
     /\ (r.rdone # 0 =>
           /\ AllOk(r.rops)
-          /\ (r.rdone = 1 /\ NR(r) = 1 => EqV(RunRead(r.racc, r.rops, AccW(r), 1, 1, <<>>), r.truth)))
+          /\ (r.rdone = 1 /\ NR(r) = 1 => EqBits(ReadValue(r), ValBits(r.truth))))
 
 (* registers of several bus words: the value composed as the accessor composes it is the register's *)
 RegCompose(r) ==
   Judged(r) =>
-    /\ (r.wdone = 1 /\ NW(r) > 1 => EqV(r.after, r.v))
-    /\ (r.rdone = 1 /\ NR(r) > 1 => EqV(RunRead(r.racc, r.rops, AccW(r), 1, 1, <<>>), r.truth))
+    /\ (r.wdone = 1 /\ NW(r) > 1 => EqV(r.after, r.want))
+    /\ (r.rdone = 1 /\ NR(r) > 1 => EqBits(ReadValue(r), ValBits(r.truth)))
 
 (* CSR_<REG>_<FIELD>_OFFSET / _SIZE select the bits that the hardware field signal carries *)
 RegValue(r) == IF r.kind = "sto" THEN r.after ELSE r.truth
@@ -176,6 +183,9 @@ RegFields(r) ==
 RegFormats(r) ==
   /\ Pub(r.a.h) /\ r.a.h = r.a.json /\ r.a.h = r.a.csv
   /\ r.nw.h = r.nw.json /\ r.nw.h = r.nw.csv /\ r.ty.json = r.ty.csv
+  /\ r.ty.json \in {"ro", "rw"}
+  /\ (r.W # 0 => (r.ty.json = "ro" <=> r.hasw = 0))          \* read-only in JSON/CSV <=> no <reg>_write() in csr.h
+  /\ (r.hw = 1 /\ r.kind = "sto" => r.ty.json = "rw")
   /\ (r.hw = 1 =>
         /\ r.nw.h = NR(r)
         /\ (r.hasw = 1 => StoreMap(r.wacc) = LoadMap(r.racc))                       \* read and write accessors agree
@@ -186,7 +196,8 @@ RegFormats(r) ==
              LET w == r.svd[j] IN
                /\ w[2] = w[1] * r.bw
                /\ <<w[3], w[2]>> \in LoadMap(r.racc))
-  /\ (r.hw = 0 => Len(r.svd) = r.nw.h /\ (r.nw.h = 1 => r.svd[1][3] = r.a.h))
+  (* published without a register in the hardware: only the reserved<n> fillers of fixed positions *)
+  /\ (r.hw = 0 => r.filler = 1 /\ Len(r.svd) = r.nw.h /\ (r.nw.h = 1 => r.svd[1][3] = r.a.h))
 
 ---------------------------------------------------------------------------
 (* CSR-mapped memories: word k of the memory is the CSR word at base + 4k *)
@@ -234,7 +245,9 @@ RegionAnswers(g) ==
         /\ \A j \in 1..Len(S.wins) : Pub(S.wins[j].a.h) => InRange(S.wins[j].a.h, g.base.memh, g.size.memh))
 RegionFormats(g) ==
   /\ g.base.memh = g.base.tab /\ g.base.memh = g.base.json /\ g.base.memh = g.base.csv /\ g.base.memh = g.base.svd
+  /\ g.base.memh = g.base.ld
   /\ g.size.memh = g.size.tab /\ g.size.memh = g.size.json /\ g.size.memh = g.size.csv /\ g.size.memh = g.size.svd
+  /\ g.size.memh = g.size.ld
 
 ---------------------------------------------------------------------------
 (* interrupts and constants *)
@@ -257,9 +270,10 @@ SocConstants(s) ==
   /\ (s.cfg.cpu = "none" => s.irqs = <<>>)
 SocFormats(s) ==
   /\ \A j \in 1..Len(s.consts) :
-       LET c == s.consts[j].v IN c.soch = c.json /\ c.soch = c.csv /\ c.soch = c.svd
+       LET c == s.consts[j].v IN /\ c.soch = c.json /\ c.soch = c.csv /\ c.soch = c.svd
+                                 /\ (c.sochfn = c.soch \/ (c.soch = "" /\ c.sochfn = "<absent>"))   \* <name>_read()
   /\ ToSet(s.hwnames) \subseteq {s.regs[j].name : j \in {m \in 1..Len(s.regs) : Pub(s.regs[m].a.h)}}
-Hung(ops) == \E j \in 1..Len(ops) : ops[j][3] = 2
+Hung(ops) == \E j \in 1..Len(ops) : ops[j][3] # 0
 SocEnv(s) ==
   /\ s.built \in {0, 1}
   /\ (s.built = 1 =>
@@ -267,9 +281,9 @@ SocEnv(s) ==
         /\ (s.dead = 1 =>
               \/ \E j \in 1..Len(s.regs) : Hung(s.regs[j].wops) \/ Hung(s.regs[j].rops)
               \/ \E j \in 1..Len(s.wins) : \E k \in 1..Len(s.wins[j].probes) :
-                    s.wins[j].probes[k].resp = 2 \/ s.wins[j].probes[k].rresp = 2
+                    s.wins[j].probes[k].resp > 0 \/ s.wins[j].probes[k].rresp > 0
               \/ \E j \in 1..Len(s.regions) : \E k \in 1..Len(s.regions[j].probes) :
-                    s.regions[j].probes[k].resp = 2 \/ s.regions[j].probes[k].rresp = 2))
+                    s.regions[j].probes[k].resp > 0 \/ s.regions[j].probes[k].rresp > 0))
   /\ s.cfg.std \in {"wishbone", "axi-lite", "axi"} /\ s.cfg.dw \in {32, 64} /\ s.cfg.cdw \in {8, 32}
   /\ s.cfg.ord \in {"big", "little"}
 
